@@ -108,16 +108,17 @@ def poll_done(a, max_polls=4000):
     raise HarnessError("poll budget exhausted")
 
 
-def drain(b, limit=8):
-    """everything the receiving application can get: [(pipe, any(), payload)]"""
+def drain(b, limit=8, idiom="full"):
+    """everything the receiving application can get: [(pipe, any(), payload)]; idiom "bare": the application
+    does not ask for the length (available(), pipe, read()) - the length reported is then the result's own"""
     got = []
     for _ in range(limit):
         if not b.available():
             break
         pipe = b.pipe
-        n = b.any()
+        n = b.any() if idiom == "full" else None
         data = b.read()
-        got.append((pipe, n, data))
+        got.append((pipe, n if idiom == "full" or data is None else len(data), data))
     # the results are compared only after the last read(): what an application keeps from an earlier read() must
     # still be that payload after later ones (a result that aliases a re-used buffer is a wrong result)
     return [(pipe, n, None if data is None else bytes(data)) for pipe, n, data in got]
